@@ -46,7 +46,7 @@ structure Task.TI (t : Task) : Prop extends Task.BodyTI t where
 
 theorem holds_false_iff {t : Task} {k : Nat} : holds t k = false ↔ t.mode ≠ .fast ∧ lockKeyOf t.mode k ∉ t.locks := by
   unfold holds
-  cases hm : t.mode <;> simp [hm]
+  cases t.mode <;> simp
 
 theorem BodyTI_abort {t : Task} (h : t.BodyTI) (o : Outcome) : (abort t o).TI := by
   unfold abort
